@@ -888,7 +888,7 @@ fn run_ortho(rep: &mut Report, fam: Fam, n: u32, tol_choice: f64, poly_tol: f64)
         let pt = ptilde(&a, r.abs());
         let unit = tol * (1.0f64).max(1.0 / dps[k]) + EPS * pt / dps[k];
         let dist = (s[k] - r).abs();
-        let ratio = (dist - FLOOR_ULPS * EPS * r.abs()).max(0.0) / unit;
+        let ratio = nmax(dist - FLOOR_ULPS * EPS * r.abs(), 0.0) / unit;
         rep.max(&format!("{}/distance_over_unit", name), ratio);
         if !(dist <= K_ZERO * unit + FLOOR_ULPS * EPS * r.abs()) {
             rep.violation(&format!("{}/match", name), case(), format!("n={} tol={:e}: zero #{} (ascending) {:.17e} differs from the true zero {:.17e} by {:e} = {:.3} units, bound {}", n, tol, k, s[k], r, dist, ratio, K_ZERO));
@@ -1025,6 +1025,17 @@ pub fn stages(ctx: &Ctx) -> Vec<Stage> {
                     roots[k] = C::new(0.0, 0.0);
                     rep.count(&format!("random/cases_with_a_root_at_exactly_zero/degree_{}", deg.min(3)), 1);
                 }
+            }
+        }
+        if !real && rng.chance(0.12) {
+            // a root at a small but genuine distance from the real axis (1e-9..1e-5, i.e. of the order of
+            // the tolerances in use): it is not a real root
+            let k = rng.below(deg);
+            roots[k] = C::new(roots[k].re, rng.sign() * rng.log10(-9.0, -5.0));
+            if (0..deg).all(|j| j == k || (roots[j] - roots[k]).norm() >= MIN_SEP) {
+                rep.count("random/complex_cases_with_a_root_just_off_the_real_axis", 1);
+            } else {
+                roots = gen_roots(&mut rng, deg, real);
             }
         }
         let lead = gen_lead(&mut rng, real);
